@@ -7,8 +7,9 @@ from .. import nodegen
 
 ID = "C01"
 SUITES = ["init", "node"]
-LEAN_MODULES = ["VpnCloud.Proofs.C01"]
-THEOREMS = ["VpnCloud.Proofs.C01." + n for n in ("readFrom_never_fatal", "readFrom_accept_genuine", "accepted_was_signed_by_trusted", "handleInit_reject_pure", "peerCrypto_reject_pure", "stale_tail_irrelevant", "success_needs_trusted_signature")]
+LEAN_MODULES = ["VpnCloud.Proofs.C01", "VpnCloud.Proofs.C01Node"]
+THEOREMS = ["VpnCloud.Proofs.C01." + n for n in ("readFrom_never_fatal", "readFrom_accept_genuine", "accepted_was_signed_by_trusted", "handleInit_reject_pure", "peerCrypto_reject_pure", "stale_tail_irrelevant", "success_needs_trusted_signature")] + [
+            "VpnCloud.Proofs.C01Node.only_sender_becomes_peer", "VpnCloud.Proofs.C01Node.iface_creates_no_peer", "VpnCloud.Proofs.C01Node.housekeep_creates_no_peer"]
 BATCH = 20
 SEARCH_BUDGET_S = 400
 EXPECTED_CLASSES = ["ideliver:reply", "ideliver:init", "ideliver:err:crypto", "ideliver:err:parse", "ideliver:msg"]
